@@ -1,6 +1,172 @@
-//! stub: domain `linalg` (filled in by its builder)
-use crate::Ints;
+//! C13: linear solver.  Mirror of coq/theories/Run/RunLinalg.v.
+//!   case   = op kind lsq  m name*(m)  r c  A-entries(r*c, row major)  nb  b-entries(nb)
+//!     op   : 0 dsolve(A, b, lsq)      A and b of `kind`
+//!            1 fdsolve(A, b, lsq)     A of f64, b of `kind`
+//!            2 dmul21_(A, b)          3 fdmul21_(A, b)         5 dmul22_(A.t(), A)
+//!            7 / 8  residual oracle (real code only): x = dsolve / fdsolve (A, b, lsq), then
+//!                   M x - v through the real dmul21_/fdmul21_ (M, v = A, b or A^T A, A^T b);
+//!                   prints the residual entries, then the entries of v
+//!     kind : 0 f64 | 1 Dual | 2 Dual2 (encodings of numenc.rs)
+//!   output = 2 (abort) | 0 n entry*(n), entry = re [gradient1(names)] [gradient2(names) row major]
+//!            followed, for kinds 1 and 2, by the marker -7 and per entry `nvars idx*` = the stored
+//!            variable order as indices into `names` (layout statistics only, never a verdict)
+use crate::cal::Rd;
+use crate::numenc::{read_dual, read_dual2, read_f, read_names};
+use crate::{f2i, guard, Ints};
+use ndarray::{Array1, Array2};
+use num_traits::identities::Zero;
+use num_traits::Signed;
+use rateslib::dual::linalg::{dmul21_, dmul22_, dsolve, fdmul21_, fdsolve};
+use rateslib::dual::{Dual, Dual2, Gradient1, Gradient2, Vars};
+use std::iter::Sum;
+use std::ops::{Div, Mul, Sub};
 
-pub fn run(_op: &str, _a: &Ints) -> Ints {
-    vec![-1]
+fn rd_f64(r: &mut Rd) -> f64 {
+    read_f(r)
+}
+fn out_f(_names: &[String], x: &f64, out: &mut Ints) {
+    out.push(f2i(*x));
+}
+fn out_d(names: &[String], x: &Dual, out: &mut Ints) {
+    out.push(f2i(x.real()));
+    out.extend(x.gradient1(names.to_vec()).iter().map(|g| f2i(*g)));
+}
+fn out_d2(names: &[String], x: &Dual2, out: &mut Ints) {
+    out.push(f2i(x.real()));
+    out.extend(x.gradient1(names.to_vec()).iter().map(|g| f2i(*g)));
+    out.extend(x.gradient2(names.to_vec()).iter().map(|g| f2i(*g)));
+}
+fn lay_f(_names: &[String], _x: &f64, _out: &mut Ints) {}
+fn lay_vars<'a, I: Iterator<Item = &'a String>>(names: &[String], it: I, out: &mut Ints) {
+    let v: Vec<i128> = it
+        .map(|s| names.iter().position(|n| n == s).map(|p| p as i128).unwrap_or(-1))
+        .collect();
+    out.push(v.len() as i128);
+    out.extend(v);
+}
+fn lay_d(names: &[String], x: &Dual, out: &mut Ints) {
+    lay_vars(names, x.vars().iter(), out)
+}
+fn lay_d2(names: &[String], x: &Dual2, out: &mut Ints) {
+    lay_vars(names, x.vars().iter(), out)
+}
+
+struct Io<T> {
+    read: fn(&mut Rd) -> T,
+    write: fn(&[String], &T, &mut Ints),
+    layout: fn(&[String], &T, &mut Ints),
+    has_layout: bool,
+}
+
+fn put_vec<T>(io: &Io<T>, names: &[String], xs: &[T]) -> Ints {
+    let mut out: Ints = vec![xs.len() as i128];
+    for x in xs {
+        (io.write)(names, x, &mut out);
+    }
+    if io.has_layout && !xs.is_empty() {
+        out.push(-7);
+        for x in xs {
+            (io.layout)(names, x, &mut out);
+        }
+    }
+    out
+}
+
+fn run_t<T>(io: Io<T>, op: i128, lsq: bool, names: &[String], r: usize, c: usize, rd: &mut Rd) -> Ints
+where
+    T: PartialOrd + Signed + Clone + Sum + Zero,
+    for<'a> &'a T: Sub<&'a T, Output = T> + Mul<&'a T, Output = T> + Div<&'a T, Output = T>,
+    for<'a> &'a f64: Mul<&'a T, Output = T>,
+{
+    let f64_matrix = matches!(op, 1 | 3 | 8);
+    let af: Vec<f64> = if f64_matrix { (0..r * c).map(|_| rd_f64(rd)).collect() } else { vec![] };
+    let at: Vec<T> = if f64_matrix { vec![] } else { (0..r * c).map(|_| (io.read)(rd)).collect() };
+    let nb = rd.next() as usize;
+    let b: Vec<T> = (0..nb).map(|_| (io.read)(rd)).collect();
+    // building the arrays is harness work, not library work
+    let b_ = Array1::from_vec(b);
+    if f64_matrix {
+        let a_ = Array2::from_shape_vec((r, c), af).expect("shape");
+        match op {
+            1 => guard(|| {
+                let x = fdsolve(&a_.view(), &b_.view(), lsq);
+                Ok(put_vec(&io, names, &x.to_vec()))
+            }),
+            3 => guard(|| {
+                let x = fdmul21_(&a_.view(), &b_.view());
+                Ok(put_vec(&io, names, &x.to_vec()))
+            }),
+            _ => guard(|| {
+                let x = fdsolve(&a_.view(), &b_.view(), lsq);
+                let (m, v) = if lsq {
+                    (dmul22_::<f64>(&a_.t(), &a_.view()), fdmul21_(&a_.t(), &b_.view()))
+                } else {
+                    (a_.clone(), b_.clone())
+                };
+                let mx = fdmul21_(&m.view(), &x.view());
+                let res: Vec<T> = mx.iter().zip(v.iter()).map(|(p, q)| p - q).collect();
+                let mut out = put_vec(&io, names, &res);
+                out.extend(put_vec(&io, names, &v.to_vec()));
+                Ok(out)
+            }),
+        }
+    } else {
+        let a_ = Array2::from_shape_vec((r, c), at).expect("shape");
+        match op {
+            0 => guard(|| {
+                let x = dsolve(&a_.view(), &b_.view(), lsq);
+                Ok(put_vec(&io, names, &x.to_vec()))
+            }),
+            2 => guard(|| {
+                let x = dmul21_(&a_.view(), &b_.view());
+                Ok(put_vec(&io, names, &x.to_vec()))
+            }),
+            5 => guard(|| {
+                let m = dmul22_(&a_.t(), &a_.view());
+                let mut out: Ints = vec![m.nrows() as i128, m.ncols() as i128];
+                for x in m.iter() {
+                    (io.write)(names, x, &mut out);
+                }
+                Ok(out)
+            }),
+            _ => guard(|| {
+                let x = dsolve(&a_.view(), &b_.view(), lsq);
+                let (m, v) = if lsq {
+                    (dmul22_(&a_.t(), &a_.view()), dmul21_(&a_.t(), &b_.view()))
+                } else {
+                    (a_.clone(), b_.clone())
+                };
+                let mx = dmul21_(&m.view(), &x.view());
+                let res: Vec<T> = mx.iter().zip(v.iter()).map(|(p, q)| p - q).collect();
+                let mut out = put_vec(&io, names, &res);
+                out.extend(put_vec(&io, names, &v.to_vec()));
+                Ok(out)
+            }),
+        }
+    }
+}
+
+pub fn run(_op: &str, a: &Ints) -> Ints {
+    // the first token of the line is the op itself (an integer); main.rs passes it as `_op`
+    let op: i128 = _op.parse().expect("op");
+    let mut rd = Rd::new(a);
+    let kind = rd.next();
+    let lsq = rd.next() == 1;
+    let names = read_names(&mut rd);
+    let r = rd.next() as usize;
+    let c = rd.next() as usize;
+    match kind {
+        0 => run_t(
+            Io::<f64> { read: rd_f64, write: out_f, layout: lay_f, has_layout: false },
+            op, lsq, &names, r, c, &mut rd,
+        ),
+        1 => run_t(
+            Io::<Dual> { read: read_dual, write: out_d, layout: lay_d, has_layout: true },
+            op, lsq, &names, r, c, &mut rd,
+        ),
+        _ => run_t(
+            Io::<Dual2> { read: read_dual2, write: out_d2, layout: lay_d2, has_layout: true },
+            op, lsq, &names, r, c, &mut rd,
+        ),
+    }
 }
